@@ -13,6 +13,7 @@ import json
 import os
 import re
 import subprocess
+import sys
 
 ROOT = os.path.dirname(os.path.dirname(os.path.abspath(__file__)))
 HBIN = os.path.join(ROOT, 'harness', 'target', 'release', 'harness')
@@ -519,7 +520,7 @@ def run(pid, tier, seed, work):
     import concurrent.futures as cf
     results = []
     with cf.ThreadPoolExecutor(max_workers=8) as ex:
-        futs = [ex.submit(run_one, cmd, tag, work, 3000) for cmd, tag in jobs]
+        futs = [ex.submit(run_one, cmd, tag, work, 120 if tier == 'quick' else 1500) for cmd, tag in jobs]
         for f in futs:
             results.append(f.result())
     fails = [f for r in results for f in r['fails']]
